@@ -130,6 +130,68 @@ theorem div_toward_zero (a b : IntV) (hb : b.den ≠ 0) :
   generalize Int.tdiv a.den b.den * b.den = P at *
   omega
 
+/-! ## shifts: `a << n = a * 2^n`, `a >> n = ⌊a / 2^n⌋`, a negative count reverses the direction
+
+The count is any Int (small or big) whose value lies strictly inside the word range; counts of
+magnitude ≥ 2^63 are outside the modelled property (docs/C06.md). -/
+
+theorem shl_exact (a b : IntV) (hn : -(2^63 : Int) < b.den ∧ b.den < 2^63) :
+    ∃ v, binVal .shl a b = .val v ∧
+      v.den = (if 0 ≤ b.den then a.den * 2 ^ b.den.toNat else a.den >>> (-b.den).toNat) ∧
+      (a.Normal → v.Normal) := by
+  obtain ⟨v, h, hd, hnorm⟩ := binVal_shl a b hn
+  exact ⟨v, h, hd, hnorm⟩
+
+theorem shr_exact (a b : IntV) (hn : -(2^63 : Int) < b.den ∧ b.den < 2^63) :
+    ∃ v, binVal .shr a b = .val v ∧
+      v.den = (if 0 ≤ b.den then a.den >>> b.den.toNat else a.den * 2 ^ (-b.den).toNat) ∧
+      (a.Normal → v.Normal) := by
+  obtain ⟨v, h, hd, hnorm⟩ := binVal_shr a b hn
+  refine ⟨v, h, ?_, hnorm⟩
+  rw [hd, shlSpec]
+  by_cases h0 : b.den = 0
+  · simp [h0]
+  · by_cases hp : 0 ≤ b.den
+    · rw [if_neg (show ¬ (0 ≤ -b.den) by omega), if_pos hp, Int.neg_neg]
+    · rw [if_pos (show 0 ≤ -b.den by omega), if_neg hp]
+
+/-- the right shift is the floor of the quotient (rounds toward negative infinity) -/
+theorem shr_is_floor (x : Int) (n : Nat) : x >>> n = x / (2 ^ n : Int) := by
+  rw [Int.shiftRight_eq_div_pow]; norm_cast
+
+/-! ## bitwise operators: bit `i` of the result is the operation on bit `i` of the operands,
+for every `i`, in infinite two's complement (`tbit a i` is the parity of `⌊a / 2^i⌋`) -/
+
+theorem tbit_is_arithmetic (a : Int) (i : Nat) : tbit a i = decide ((a >>> i) % 2 = 1) :=
+  tbit_eq_shift a i
+
+/-- the bits determine the integer, so the four theorems below fix the results completely -/
+theorem bits_determine (a b : Int) (h : ∀ i, tbit a i = tbit b i) : a = b := tbit_ext a b h
+
+theorem and_exact (a b : IntV) :
+    ∃ v, binVal .and a b = .val v ∧ v.Normal ∧ ∀ i, tbit v.den i = (tbit a.den i && tbit b.den i) := by
+  obtain ⟨v, h, hd, hn⟩ := binVal_and a b
+  exact ⟨v, h, hn, fun i => by rw [hd, tbit_land]⟩
+
+theorem or_exact (a b : IntV) :
+    ∃ v, binVal .or a b = .val v ∧ v.Normal ∧ ∀ i, tbit v.den i = (tbit a.den i || tbit b.den i) := by
+  obtain ⟨v, h, hd, hn⟩ := binVal_or a b
+  exact ⟨v, h, hn, fun i => by rw [hd, tbit_lor]⟩
+
+theorem xor_exact (a b : IntV) :
+    ∃ v, binVal .xor a b = .val v ∧ v.Normal ∧ ∀ i, tbit v.den i = (tbit a.den i ^^ tbit b.den i) := by
+  obtain ⟨v, h, hd, hn⟩ := binVal_xor a b
+  exact ⟨v, h, hn, fun i => by rw [hd, tbit_lxor]⟩
+
+theorem andNot_exact (a b : IntV) :
+    ∃ v, binVal .andNot a b = .val v ∧ v.Normal ∧ ∀ i, tbit v.den i = (tbit a.den i && !tbit b.den i) := by
+  obtain ⟨v, h, hd, hn⟩ := binVal_andNot a b
+  exact ⟨v, h, hn, fun i => by rw [hd, tbit_landNot]⟩
+
+theorem not_bits (a : IntV) : ∃ v, unVal .not a = .val v ∧ ∀ i, tbit v.den i = !tbit a.den i := by
+  obtain ⟨v, h, hd⟩ := unVal_not_den a
+  exact ⟨v, h, fun i => by rw [hd, tbit_not]⟩
+
 /-! ## comparisons -/
 
 theorem cmp_exact (a b : IntV) :
@@ -176,10 +238,11 @@ theorem unnormalised_distinguishable_witness :
 
 /-- results do not depend on how the operands are represented: computing through `BigInt`
 operands gives the very same value as computing through `SmallInt` operands -/
-theorem repr_independent_arith (op : Op) (hop : op = .add ∨ op = .sub ∨ op = .mul ∨ op = .pow)
+theorem repr_independent_arith (op : Op)
+    (hop : op = .add ∨ op = .sub ∨ op = .mul ∨ op = .pow ∨ op = .and ∨ op = .or ∨ op = .xor ∨ op = .andNot)
     (a a' b b' : IntV) (ha : a.den = a'.den) (hb : b.den = b'.den) :
     binVal op a b = binVal op a' b' := by
-  rcases hop with h | h | h | h <;> subst h
+  rcases hop with h | h | h | h | h | h | h | h <;> subst h
   · obtain ⟨v, hv, hi⟩ := binVal_add a b; obtain ⟨w, hw, hj⟩ := binVal_add a' b'
     rw [hv, hw, is_unique hi (by rw [ha, hb]; exact hj)]
   · obtain ⟨v, hv, hi⟩ := binVal_sub a b; obtain ⟨w, hw, hj⟩ := binVal_sub a' b'
@@ -187,6 +250,14 @@ theorem repr_independent_arith (op : Op) (hop : op = .add ∨ op = .sub ∨ op =
   · obtain ⟨v, hv, hi⟩ := binVal_mul a b; obtain ⟨w, hw, hj⟩ := binVal_mul a' b'
     rw [hv, hw, is_unique hi (by rw [ha, hb]; exact hj)]
   · obtain ⟨v, hv, hi⟩ := binVal_pow a b; obtain ⟨w, hw, hj⟩ := binVal_pow a' b'
+    rw [hv, hw, is_unique hi (by rw [ha, hb]; exact hj)]
+  · obtain ⟨v, hv, hi⟩ := binVal_and a b; obtain ⟨w, hw, hj⟩ := binVal_and a' b'
+    rw [hv, hw, is_unique hi (by rw [ha, hb]; exact hj)]
+  · obtain ⟨v, hv, hi⟩ := binVal_or a b; obtain ⟨w, hw, hj⟩ := binVal_or a' b'
+    rw [hv, hw, is_unique hi (by rw [ha, hb]; exact hj)]
+  · obtain ⟨v, hv, hi⟩ := binVal_xor a b; obtain ⟨w, hw, hj⟩ := binVal_xor a' b'
+    rw [hv, hw, is_unique hi (by rw [ha, hb]; exact hj)]
+  · obtain ⟨v, hv, hi⟩ := binVal_andNot a b; obtain ⟨w, hw, hj⟩ := binVal_andNot a' b'
     rw [hv, hw, is_unique hi (by rw [ha, hb]; exact hj)]
 
 theorem repr_independent_divmod (op : Op) (hop : op = .div ∨ op = .mod)
@@ -212,6 +283,38 @@ theorem helpers_exact (op : Op) (a b : IntV) : binInts op a b = binVal op a b :=
 theorem helpers_exact_unary (op : UOp) (a : IntV) : unInts op a = unVal op a :=
   unInts_eq_unVal op a
 
+/-- comparisons see only the values -/
+theorem repr_independent_cmp (op : Op) (hop : op = .cmp ∨ op = .gt ∨ op = .ge ∨ op = .lt ∨ op = .le ∨ op = .eq)
+    (a a' b b' : IntV) (ha : a.den = a'.den) (hb : b.den = b'.den) :
+    binVal op a b = binVal op a' b' := by
+  rcases hop with h | h | h | h | h | h <;> subst h <;> simp only [binVal, cmpInt_spec, ha, hb]
+
+/-- closure of the normal forms under every operator (the count of a shift inside the word range) -/
+theorem normal_closed (op : Op) (a b v : IntV) (ha : a.Normal) (hb : b.Normal)
+    (hcount : (op = .shl ∨ op = .shr) → -(2^63 : Int) < b.den ∧ b.den < 2^63)
+    (h : binVal op a b = .val v) : v.Normal := by
+  cases op
+  case add => obtain ⟨w, hw, _, hn⟩ := binVal_add a b; rw [h] at hw; cases hw; exact hn
+  case sub => obtain ⟨w, hw, _, hn⟩ := binVal_sub a b; rw [h] at hw; cases hw; exact hn
+  case mul => obtain ⟨w, hw, _, hn⟩ := binVal_mul a b; rw [h] at hw; cases hw; exact hn
+  case pow => obtain ⟨w, hw, _, hn⟩ := binVal_pow a b; rw [h] at hw; cases hw; exact hn
+  case and => obtain ⟨w, hw, _, hn⟩ := binVal_and a b; rw [h] at hw; cases hw; exact hn
+  case or => obtain ⟨w, hw, _, hn⟩ := binVal_or a b; rw [h] at hw; cases hw; exact hn
+  case xor => obtain ⟨w, hw, _, hn⟩ := binVal_xor a b; rw [h] at hw; cases hw; exact hn
+  case andNot => obtain ⟨w, hw, _, hn⟩ := binVal_andNot a b; rw [h] at hw; cases hw; exact hn
+  case div =>
+    by_cases h0 : b.den = 0
+    · rw [binVal_div_zero a b h0] at h; cases h
+    · obtain ⟨w, hw, _, hn⟩ := binVal_div a b h0; rw [h] at hw; cases hw; exact hn
+  case mod =>
+    by_cases h0 : b.den = 0
+    · rw [binVal_mod_zero a b h0] at h; cases h
+    · obtain ⟨w, hw, _, hn⟩ := binVal_mod a b h0; rw [h] at hw; cases hw; exact hn
+  case shl => obtain ⟨w, hw, _, hn⟩ := binVal_shl a b (hcount (Or.inl rfl)); rw [h] at hw; cases hw; exact hn ha
+  case shr => obtain ⟨w, hw, _, hn⟩ := binVal_shr a b (hcount (Or.inr rfl)); rw [h] at hw; cases hw; exact hn ha
+  case cmp => simp only [binVal] at h; cases h; trivial
+  all_goals (simp only [binVal] at h; cases h)
+
 /-! ## non-vacuity -/
 example : binVal .add (.small (BitVec.ofInt 64 (2^63 - 1))) (.small 1#64) = .val (.big (2^63)) := by decide
 example : binVal .sub (.big (2^63)) (.small 1#64) = .val (.small (BitVec.ofInt 64 (2^63 - 1))) := by decide
@@ -219,5 +322,11 @@ example : binVal .div (.small (-7#64)) (.big (10^30)) = .val (.small 0#64) := by
 example : binVal .mod (.small (-7#64)) (.big (10^30)) = .val (.small (-7#64)) := by decide
 example : binVal .div (.small (BitVec.intMin 64)) (.small (-1#64)) = .val (.big (2^63)) := by decide
 example : (IntV.big (2^64)).Normal ∧ ¬ (IntV.big 5).Normal := by decide
+example : binVal .shl (.small 1#64) (.small 64#64) = .val (.big (2^64)) := by decide
+example : binVal .shl (.small (-1#64)) (.small 63#64) = .val (.small (BitVec.intMin 64)) := by decide
+example : binVal .shr (.big (-(2^64) - 1)) (.small 1#64) = .val (.big (-(2^63) - 1)) := by decide
+example : binVal .shl (.big (2^64)) (.small (-1#64)) = .val (.big (2^63)) := by decide
+example : binVal .and (.small (-1#64)) (.big (2^64 + 5)) = .val (.big (2^64 + 5)) := by decide +kernel
+example : binVal .andNot (.big (2^64 + 5)) (.small 1#64) = .val (.big (2^64 + 4)) := by decide +kernel
 
 end Elk.C06
